@@ -61,6 +61,11 @@ var badScalars = []badScalar{
 	{"2^bits+n-1", func(o *big.Int, l int) *big.Int { return add(new(big.Int).Lsh(one, uint(8*l)), sub(o, one)) }},
 }
 
+// histBudget is the read budget of one signing call on an invalid key: a correct
+// implementation refuses such a key after at most one block; 256 blocks are far
+// beyond any legitimate retry and keep a looping implementation cheap to expose.
+const histBudget = 256 * 32
+
 // playHistory runs the operations on the key; every call must return an error
 // without panicking and within the read budget.
 func playHistory(c *mon.Case, curveName, dName string, obj *sm2.PrivateKey, ek *ecdsa.PrivateKey, seq []int, budget int) {
@@ -133,7 +138,7 @@ func history(x *mon.Ctx) {
 					// refusing the key at construction is an error on every later use, too
 					c.Event("key_refused_at_construction", 1)
 				} else {
-					playHistory(c, "sm2", bs.name, obj, ek, seq, retryBudget)
+					playHistory(c, "sm2", bs.name, obj, ek, seq, histBudget)
 				}
 			}
 			c.End()
@@ -156,7 +161,7 @@ func history(x *mon.Ctx) {
 		var obj *sm2.PrivateKey
 		var err error
 		if c.Call("FromECPrivateKey", func() { obj, err = new(sm2.PrivateKey).FromECPrivateKey(ek) }) && err == nil {
-			playHistory(c, "sm2", bs.name, obj, ek, seq, retryBudget)
+			playHistory(c, "sm2", bs.name, obj, ek, seq, histBudget)
 		}
 		c.End()
 	}
@@ -183,9 +188,9 @@ func history(x *mon.Ctx) {
 				d := bs.f(order, (order.BitLen()+7)/8)
 				ek := legacyInvalidKey(cv.c, d)
 				obj := &sm2.PrivateKey{PrivateKey: *ek}
-				budget := retryBudget
+				budget := histBudget
 				if ci > 0 {
-					budget = retryBudget / 8 // slower arithmetic: 512 blocks are still far beyond any legitimate retry
+					budget = histBudget / 4 // slower arithmetic
 				}
 				playHistory(c, cv.name, bs.name, obj, ek, seq, budget)
 				c.End()
